@@ -311,3 +311,44 @@ K(['C20'], 'c20-strip-keeps-charge', PP, "            self.charge = None\n      
 K(['C20'], 'c20-interval-hash-order', DC, "tuple(sorted(self.mods)) if self.mods else None", "tuple(self.mods) if self.mods else None", 'order', 'interval hash depends on mod order')
 P(['C20'], 'c20-eq-reordered', PP, "        if not are_mods_equal(self.labile_mods, other.labile_mods):\n            return False\n\n        if not are_mods_equal(self.unknown_mods, other.unknown_mods):\n            return False\n",
   "        if not are_mods_equal(self.unknown_mods, other.unknown_mods):\n            return False\n\n        if not are_mods_equal(self.labile_mods, other.labile_mods):\n            return False\n", 'comparisons reordered')
+
+
+# ---------------------------------------------------------------------------------------------------- C06
+SPN = 'spans.py'
+K(['C06'], 'c06-strict-lower-bound', SPN, 'if min_len <= (end_site - start_site) <= max_len:',
+  'if min_len < (end_site - start_site) <= max_len:', 'closed interval', 'a span of exactly min_len residues is dropped')
+K(['C06'], 'c06-strict-upper-bound-semi', SPN, 'if max_len >= span[1] - span[0] >= min_len:',
+  'if max_len > span[1] - span[0] >= min_len:', 'closed interval',
+  'under semi a strict span of exactly max_len residues is dropped')
+K(['C06'], 'c06-window-one-short', SPN, 'enzyme_sites[i + 1: i + missed_cleavages + 2]',
+  'enzyme_sites[i + 1: i + missed_cleavages + 1]', 'missed_cleavages + 1 sites wide',
+  'one missed cleavage fewer than asked for')
+K(['C06'], 'c06-window-starts-at-self', SPN, 'enzyme_sites[i + 1: i + missed_cleavages + 2]',
+  'enzyme_sites[i: i + missed_cleavages + 2]', 'starts right after the start site', 'empty spans, counts shifted by one')
+K(['C06'], 'c06-count-off-by-one', SPN, 'yield start_site, end_site, j', 'yield start_site, end_site, j + 1',
+  'position inside the window', 'every span reports one missed cleavage too many')
+K(['C06'], 'c06-sites-not-deduplicated', SPN, 'enzyme_sites = sorted(set(enzyme_sites))\n\n    if len(enzyme_sites) == max_index + 1',
+  'enzyme_sites = sorted(enzyme_sites)\n\n    if len(enzyme_sites) == max_index + 1', 'distinct sites',
+  'two rules reporting the same site make a specific digest look non-specific')
+K(['C06'], 'c06-semi-parents-bounded', SPN, 'None if semi else max_len', 'max_len', 'without the upper bound',
+  'a strict span longer than max_len contributes no semi spans')
+K(['C06'], 'c06-right-semi-dropped', SPN, '    yield from _grouped_right_semi_span_builder(spans, min_len, max_len)\n', '',
+  'left and the right semi spans', 'spans sharing the end with a strict span are never produced')
+K(['C06'], 'c06-nonspecific-keeps-count', SPN, 'return ((i, j, 0) for i in range(start, end)', 'return ((i, j, _) for i in range(start, end)',
+  '0 missed cleavages', 'non-specific spans inherit the number of the parent span')
+K(['C06'], 'c06-partial-inverted', DG, '    if not complete_digestion:\n        all_spans.add((0, len(annotation), 0))',
+  '    if complete_digestion:\n        all_spans.add((0, len(annotation), 0))', 'digestion adds',
+  'the undigested sequence is added for complete digestion and missing for partial digestion')
+K(['C06'], 'c06-semi-not-forwarded', DG, 'min_len=min_len, max_len=max_len, semi=semi)', 'min_len=min_len, max_len=max_len)',
+  'semi', 'semi-specific digestion silently becomes specific')
+K(['C06'], 'c06-terminus-not-a-site', SPN, '    enzyme_sites.add(max_index)\n', '', 'closed with 0 and max_index',
+  'the last peptide is never produced')
+P(['C06'], 'c06-bounds-as-locals', SPN, 'if min_len <= (end_site - start_site) <= max_len:\n                yield start_site, end_site, j',
+  'length = end_site - start_site\n            if min_len <= length <= max_len:\n                yield start_site, end_site, j',
+  'the span length named before it is tested')
+P(['C06'], 'c06-window-named', SPN, 'for j, end_site in enumerate(enzyme_sites[i + 1: i + missed_cleavages + 2]):',
+  'first = i + 1\n        for j, end_site in enumerate(enzyme_sites[first: first + missed_cleavages + 1]):',
+  'the window written with a named lower bound')
+P(['C06'], 'c06-partial-flipped', DG, '    if not complete_digestion:\n        all_spans.add((0, len(annotation), 0))',
+  '    if complete_digestion:\n        pass\n    else:\n        all_spans.add((0, len(annotation), 0))',
+  'the partial-digestion branch written as an else')
